@@ -181,11 +181,21 @@ REGISTRY: Dict[str, List[Tuple[Frag, str]]] = {
                "poissons_ratio": "optreal", "youngs_modulus": "optreal"},
               tests=("second_parameter is None", "first_parameter is None"), outs=("first_parameter", "second_parameter"),
               sqrt=True, consts=("RUBBER_POISSONS_RATIO",)), "real"),
+        (Frag("denorm_scale", _FL, "denormalize_flow", "lets", {"data": "real", "size": "real", "align_corners": "bool"},
+              lets=("zero", "size", "size_", "data"), result="=data"), "real"),
+        (Frag("denorm_side", _FL, "denormalize_flow", "block", {"data": "real", "side_length": "real"},
+              tests=("side_length != 1",), outs=("data",)), "real"),
         (Frag("lame_clip", "deepali/losses/functional.py", "lame_parameters", "block",
               {"first_parameter": "real", "second_parameter": "real"},
               tests=("first_parameter < 0", "second_parameter < 0"), outs=("first_parameter", "second_parameter")), "real"),
     ],
     "C14": [
+    ] + [
+        (Frag(f"bw{d}_{col}", "deepali/core/bspline.py", "cubic_bspline_interpolation_weights", "assign",
+              {k: "real" for k in ("offset", "k0", "k2", "k3", "s023")}, target=f"kernel[:, {col}]", occ=(d, d),
+              rename={"kernel[:, 0]": "k0", "kernel[:, 2]": "k2", "kernel[:, 3]": "k3", "kernel[:, [0, 2, 3]].sum(1)": "s023"}), "real")
+        for d in (0, 1, 2) for col in (3, 0, 2, 1)
+    ] + [
         (Frag("cubic_bspline_value", "deepali/core/kernels.py", "cubic_bspline_value", "function", {"x": "real", "derivative": "nat"}), "real"),
         (Frag("ctrl_size", "deepali/core/bspline.py", "cubic_bspline_control_point_grid_size", "assign", {"m": "int", "s": "int"}, target="n", occ=(0, 1)), "int"),
     ],
